@@ -335,6 +335,10 @@ def execute(spec, tier, seed, only_case=None):
             list(ex.map(work, enumerate(jobs)))
 
         # TSan verdicts
+        ntsan = sum(1 for j in jobs if j[1].get("tsan"))
+        if ntsan:
+            res.add_cnt("tsan/instrumented_processes_run", ntsan)
+            res.add_cnt("tsan/log_files_with_reports", len(set(res.tsan_logs)))
         if res.tsan_logs:
             table, other = parse_tsan_logs(sorted(set(res.tsan_logs)))
             for k, blk in table.items():
